@@ -2778,6 +2778,182 @@ def run_covariance(ctx: Ctx):
                                  f"translation block scaled by 2^{k} at item {i} ({name}, {dtype}): {z1[i].double().tolist()} vs {z2[i].double().tolist()}")
 
 
+# ----------------------------------------------------------------------------- classes 39 / 41: layout x regime-minority x size
+
+LAYOUT_SHAPES = [(6, 4), (9, 5), (2, 3, 4), (4, 4, 4)]
+
+
+def permuted_layout(T_, lshape, fortran=False):
+    """the rows of T_ (n, d) as a tensor of shape lshape + (d,) whose BATCH strides are permuted: the storage is laid out in the reversed
+    batch-dimension order and viewed back (fortran=True: the component dimension is reversed too, so it has the largest stride)"""
+    k = len(lshape)
+    A = T_.reshape(tuple(lshape) + (T_.shape[-1],))
+    perm = list(reversed(range(k + 1))) if fortran else list(reversed(range(k))) + [k]
+    inv = [perm.index(i) for i in range(k + 1)]
+    return A.permute(perm).contiguous().permute(inv)
+
+
+def degenerate_rows(name, X, a, block, ix, ia):
+    """rows `ix` of X / `ia` of a made EXACTLY degenerate in one block (rotation / scale / translation / all)"""
+    X, a = X.clone(), a.clone()
+    q, t, s = U.QSL[name], U.TSL[name], U.SIDX[name]
+    ph, ta, sg = U.PHISL[name], U.TAUSL[name], U.SIGIDX[name]
+    one_q = torch.tensor([0.0, 0.0, 0.0, 1.0], dtype=X.dtype)
+    for j, i in enumerate(ix):
+        if block in ("rotation", "all"):
+            X[i, q] = one_q if j % 2 == 0 else -one_q
+        if block in ("scale", "all") and s is not None:
+            X[i, s] = 1.0
+        if block in ("translation", "all") and t is not None:
+            X[i, t] = 0.0
+    for i in ia:
+        if block in ("rotation", "all"):
+            a[i, ph] = 0.0
+        if block in ("scale", "all") and sg is not None:
+            a[i, sg] = 0.0
+        if block in ("translation", "all") and ta is not None:
+            a[i, ta] = 0.0
+    return X, a
+
+
+def blocks_close(name, z1, z2, grp, dtype, k=16.0):
+    """per-block comparison of two result rows (group-valued: quaternion / translation / scale; algebra-valued: phi / tau / sigma); NaN fails"""
+    e, fl = teps(dtype), SCALE_FLOOR[dtype]
+    if z1.shape != z2.shape:
+        return False
+    if z1.dim() > 1 or z1.shape[-1] == 9:       # Jr: one block
+        d = float((z1.double() - z2.double()).abs().max())
+        return d <= k * e * max(float(z2.double().abs().max()), 1.0)
+    sls = (U.QSL[name], U.TSL[name], U.SIDX[name]) if grp else (U.PHISL[name], U.TAUSL[name], U.SIGIDX[name])
+    for sl in sls:
+        if sl is None:
+            continue
+        sl = slice(sl, sl + 1) if isinstance(sl, int) else sl
+        d = float((z1[sl].double() - z2[sl].double()).abs().max())
+        if not (d <= k * e * max(float(z2[sl].double().abs().max()), fl)):
+            return False
+    return True
+
+
+def layout_case(ctx, pend, name, dtype, lshape, block, frac, ci):
+    """one batch with permuted batch strides in which one / a few (<= 1/8) / most items are exactly degenerate in `block` (group operand and
+    tangent operand at different items): every entry point; (i) degenerate items and a sample of generic ones against the call on that item
+    ALONE (contiguous clone), (ii) every item against the same batched call on contiguous copies, (iii) degenerate items against the
+    192-bit model, turned into a failure of the property's own clause through the exact oracles when the model disagrees"""
+    P = U.pp()
+    D, e = U.dt(dtype), teps(dtype)
+    G, A = U.GDIM[name], U.ADIM[name]
+    n = int(math.prod(lshape))
+    X0, a0 = moderate_operands(name, n, 9900 + ci)
+    kdeg = {"one": 1, "few": max(1, n // 8), "most": n - max(1, n // 8)}[frac]
+    ix = sorted({(7 * j + 3) % n for j in range(4 * n)}, key=lambda v: (7 * v + 5) % n)[:kdeg]
+    ia = sorted({(5 * j + 1) % n for j in range(4 * n)}, key=lambda v: (11 * v + 2) % n)[:kdeg]
+    X0, a0 = degenerate_rows(name, X0, a0, block, ix, ia)
+    X0, a0 = X0.to(D), a0.to(D)
+    Xp, ap = permuted_layout(X0, lshape, fortran=(ci % 3 == 2)), permuted_layout(a0, lshape, fortran=(ci % 3 == 1))
+    Xc, ac = X0.reshape(tuple(lshape) + (G,)).clone(), a0.reshape(tuple(lshape) + (A,)).clone()
+    base = {"stream": "layout", "type": name, "dtype": dtype, "lshape": list(lshape), "block": block, "fraction": frac, "degenerate_X_items": sorted(ix),
+            "degenerate_a_items": sorted(ia), "data_seed": 9900 + ci, "strides_X": list(Xp.stride()), "strides_a": list(ap.stride())}
+    special = sorted(set(ix) | set(ia))
+    generic = [i for i in range(n) if i not in special]
+    cap = 4 if ctx.quick else 10
+    few_sp = special if len(special) <= cap else special[:cap // 2] + special[-(cap // 2):]
+    few_ge = generic if len(generic) <= 3 else ([generic[0], generic[-1]] + [i for i in generic if (i - 1) in special or (i + 1) in special][:1] if ctx.quick else
+                                               [generic[0], generic[1], generic[len(generic) // 2], generic[-2], generic[-1]] +
+                                               [i for i in generic if (i - 1) in special or (i + 1) in special][:3])
+    alone = sorted(set(few_sp) | set(few_ge))
+    for op in LARGE_OPS:
+        if op in ("Jr", "jr") and name != "SO3":
+            continue
+        case = base | {"op": op}
+        ctx.note_case(("layout", name, dtype, tuple(lshape), block, frac, op), True)
+        ctx.count(f"layout.{frac}.{block}")
+        grp = op in ("Retr", "add", "add_")
+        try:
+            Z = large_call(P, name, op, Xp, ap)
+            if nonfinite_fail(ctx, case, Z, f"{op} on permuted-stride operands", Xe=X0, ae=a0):
+                continue
+            if op == "algadd":
+                want = ac + ac.flip(0)
+                if not torch.equal(Z, want):
+                    ctx.fail(case, f"layout: algebra + on lshape {lshape} operands with permuted batch strides is not vector addition ({name}, {dtype})")
+                continue
+            Zc = large_call(P, name, op, Xc, ac)
+            k = Z.shape[len(lshape):]
+            Zf, Zcf = Z.reshape((n,) + tuple(k)), Zc.reshape((n,) + tuple(k))
+            for i in range(n):
+                if not blocks_close(name, Zf[i], Zcf[i], grp, dtype):
+                    ctx.fail(case | {"item": {"index": i, "X": X0[i].double().tolist(), "a": a0[i].double().tolist()}},
+                             f"layout: {op} on an lshape {lshape} batch with PERMUTED batch strides ({frac} item(s) exactly degenerate in the {block} block: X items "
+                             f"{sorted(ix)[:6]}, a items {sorted(ia)[:6]}) differs at item {i} from the same call on contiguous copies by "
+                             f"{float((Zf[i].double() - Zcf[i].double()).abs().max()):.3e} ({name}, {dtype}); got {Zf[i].double().tolist()}, contiguous {Zcf[i].double().tolist()}")
+                    break
+            else:
+                for i in alone:
+                    zi = large_call(P, name, op, X0[i:i + 1].clone(), a0[i:i + 1].clone())
+                    zi = zi.reshape(tuple(k))
+                    if not blocks_close(name, Zf[i], zi, grp, dtype):
+                        ctx.fail(case | {"item": {"index": i, "X": X0[i].double().tolist(), "a": a0[i].double().tolist()}},
+                                 f"layout: item {i} of {op} on an lshape {lshape} batch with permuted batch strides ({frac} degenerate in {block}) differs from the "
+                                 f"same call on that item alone by {float((Zf[i].double() - zi.double()).abs().max()):.3e} ({name}, {dtype})")
+                        break
+            if op in ("Jr", "jr"):
+                continue
+            Zl = Zf.double()
+            for i in (few_sp[:2] + few_ge[:1]):
+                x, av, got = X0[i].double().tolist(), a0[i].double().tolist(), Zl[i].tolist()
+                c2 = case | {"item": {"index": i, "X": x, "a": av}}
+                if op in ("Adj", "AdjT"):
+                    fn = adj_errfn(name, dtype, x, av, op == "AdjT", got)
+                    line = mlines(f"{name}.{op}", e, x + av, False)
+                elif op in ("Retr", "add"):
+                    fn = retr_errfn(name, dtype, x, av, got)
+                    line = mlines(f"{name}.Retr", e, x + av, flag_alg(name, av, e))
+                elif op == "add_":
+                    fn = retr_errfn(name, dtype, x, [-0.5 * v for v in av], got)
+                    line = [f"{name}.add " + common.wire_list([e, -0.5] + x + av)]
+                else:
+                    xi = P.LieTensor(X0[i:i + 1].clone(), ltype=U.ltype(name)).Log().tensor().double()[0].tolist()
+                    fn = jinvp_errfn(name, dtype, xi, av, got)
+                    line = mlines(f"{name}.Jinvp", e, x + av, flag_grp(name, x, e))
+
+                def chk(cands, fn=fn, c2=c2, i=i, op=op, got=got):
+                    r, errs = best(cands, fn)
+                    if bad_blocks(errs):
+                        ctx.disagree("layout", c2, f"{op} {name} {dtype}: item {i} of a permuted-stride lshape {lshape} batch: block errors {bad_blocks(errs)}")
+                        # the property's own clause on the raw components of that item, with the batched value
+                        if op == "Jinvp":
+                            jinvp_oracle_case(ctx, {"stream": "jinvp", "type": name, "dtype": dtype, "X": c2["item"]["X"], "p": c2["item"]["a"], "fd": False,
+                                                    "batched_from": base}, got=got)
+                        elif op in ("Adj", "AdjT"):
+                            adj_oracle_case(ctx, {"stream": "adj", "type": name, "dtype": dtype, "op": op, "X": c2["item"]["X"], "a": c2["item"]["a"],
+                                                  "batched_from": base}, got=got)
+                        else:
+                            ctx.fail(c2, f"layout: item {i} of {op} on a permuted-stride lshape {lshape} batch is not Exp(alpha·a)@X of the 192-bit model: {bad_blocks(errs)} "
+                                         f"({name}, {dtype}); X={c2['item']['X']}, a={c2['item']['a']}, got {got}")
+                pend.append(Pending(line, chk))
+        except Exception as ex:
+            ctx.fail(case, f"raises: {op} on an lshape {lshape} batch with permuted batch strides raised {type(ex).__name__}: {str(ex)[:160]} ({name}, {dtype})")
+
+
+def run_layout(ctx: Ctx):
+    """classes 39 / 41.  Deterministic.  Every (block, fraction) combination on every group; the lshapes rotate through the combinations
+    (thorough: every lshape for every combination, both dtypes)."""
+    pend = []
+    ci = 0
+    for name in U.GROUPS:
+        blocks = ["rotation", "all"] + (["scale"] if U.SIDX[name] is not None else []) + (["translation"] if U.TSL[name] is not None else [])
+        for bi, block in enumerate(blocks):
+            for fi, frac in enumerate(("few", "one", "most")):
+                shapes = LAYOUT_SHAPES if not ctx.quick else [LAYOUT_SHAPES[(bi + fi + ci) % 4]]
+                for lshape in shapes:
+                    for dtype in (("float64", "float32") if (not ctx.quick or (frac == "few" and lshape == shapes[0])) else ("float64",)):
+                        ci += 1
+                        layout_case(ctx, pend, name, dtype, lshape, block, frac, ci)
+        flush(ctx, pend)
+        pend = []
+
+
 # ----------------------------------------------------------------------------- entry points
 
 def run(ctx: Ctx):
@@ -2807,13 +2983,14 @@ def run(ctx: Ctx):
     run_corpus(ctx)
     run_dispatch(ctx, ctx.pick(120, 2000))
     run_algshort(ctx)
+    run_layout(ctx)
     run_dtypes(ctx)
     run_covariance(ctx)
     run_band(ctx)
-    run_ops(ctx, ctx.pick(380, 7000))
-    run_laws(ctx, ctx.pick(90, 5000))
-    run_jinvp_oracle(ctx, ctx.pick(70, 2500))
-    run_jr_oracle(ctx, ctx.pick(60, 2000))
+    run_ops(ctx, ctx.pick(300, 7000))
+    run_laws(ctx, ctx.pick(70, 5000))
+    run_jinvp_oracle(ctx, ctx.pick(55, 2500))
+    run_jr_oracle(ctx, ctx.pick(45, 2000))
 
 
 def search(ctx: Ctx):
@@ -2889,9 +3066,9 @@ def replay(ctx: Ctx, case) -> bool:
         ok = jr_oracle_case(ctx, c)
     elif st == "adj":
         ok = adj_oracle_case(ctx, c)
-    elif st in ("history", "views", "persistent", "modes", "large", "poison", "dtypes", "covariance"):   # deterministic streams: re-run the whole (seed independent) stream
+    elif st in ("history", "views", "persistent", "modes", "large", "poison", "dtypes", "covariance", "layout"):   # deterministic streams: re-run the whole (seed independent) stream
         {"history": history_probe, "views": run_views, "modes": run_modes, "large": run_large, "poison": poison_probe, "dtypes": run_dtypes,
-         "covariance": run_covariance}.get(st, lambda cx: run(cx))(ctx)
+         "covariance": run_covariance, "layout": run_layout}.get(st, lambda cx: run(cx))(ctx)
         ok = len(ctx.failures) == n0
     else:
         pend = prepare(ctx, c)
